@@ -47,7 +47,7 @@ SymQuads == { [kind |-> "quadratic", rows |-> <<1, 2>>, columns |-> <<2, 1>>, va
 QuadNoDup(q) == \A i, j \in DOMAIN q.rows : i # j => <<q.rows[i], q.columns[i]>> # <<q.rows[j], q.columns[j]>>
 Operand(k) ==
   CASE k = "num"   -> { [k |-> "num", c |-> c, id |-> 0, f |-> [kind |-> "none"]] : c \in {R(0), R(2), <<-1,2>>} }
-    [] k = "dv"    -> { [k |-> "dv", c |-> Zero, id |-> i, f |-> [kind |-> "none"]] : i \in IdsU }
+    [] k = "dv"    -> { [k |-> "dv", c |-> Zero, id |-> i, f |-> [kind |-> "none"], vk |-> vk] : i \in IdsU, vk \in {"binary", "integer", "continuous"} }
     [] k = "param" -> { [k |-> "param", c |-> Zero, id |-> i, f |-> [kind |-> "none"]] : i \in {2, 7} }
     [] k = "lin"   -> { [k |-> "lin", c |-> Zero, id |-> 0, f |-> f] : f \in Lins(2) }
     [] k = "quad"  -> { [k |-> "quad", c |-> Zero, id |-> 0, f |-> f] : f \in { q \in WQuads(2, 1) : QuadNoDup(q) } }
